@@ -3,12 +3,16 @@ import SodiumModel.Driver.C04
 import SodiumModel.Model.Pwhash
 import SodiumModel.Model.Hash
 import SodiumModel.Spec.Argon2
+import SodiumModel.Model.Argon2Ref
 import SodiumModel.Spec.Scrypt
 import SodiumModel.Spec.Blake2b
 import SodiumModel.Spec.Sha256
+import SodiumModel.Model.ScryptRef   -- scrypt-ref (G3)
 /-
-  C08 driver: password hashing ops through Model/Pwhash.lean, the two cores instantiated with the
-  executable specifications (RFC 9106 Argon2 over RFC 7693 BLAKE2b; RFC 7914 scrypt over HMAC-SHA-256).
+  C08 driver: password hashing ops through Model/Pwhash.lean. The Argon2 core is the C-structured model of
+  the reference implementation (Model/Argon2Ref.lean: `argon2_ctx` steps 2-5, proved equal to the RFC 9106
+  specification in Properties/C08Core.lean) over RFC 7693 BLAKE2b; the scrypt core is the C-structured model of the
+  reference (non-SSE) code (Model/ScryptRef.lean, Properties/C08Scrypt.lean).
 -/
 namespace Sodium.Driver.C08
 open Sodium Sodium.Model Sodium.Model.Pwhash Sodium.Driver Sodium.Spec
@@ -16,9 +20,19 @@ open Sodium Sodium.Model Sodium.Model.Pwhash Sodium.Driver Sodium.Spec
 def blake2b (n : Nat) (m : Bytes) : Bytes := Blake2b.hash n [] [] [] m
 def hmacSha256 (key msg : Bytes) : Bytes := hmac C04.H256 key msg
 
+-- BEGIN scrypt-ref (G3): the scrypt core is the C-structured model of the reference code
+-- (Model/ScryptRef.lean: escrypt_kdf_nosse = PBKDF2 / smix / blockmix_salsa8 / salsa20_8 on Array UInt32, over the
+-- streaming HMAC-SHA-256 of Model/Hash.lean); Properties/C08Scrypt.lean proves salsa20_8 / blockmix_salsa8 / the smix loops /
+-- PBKDF2 equal to Spec.Scrypt (the le32dec/le32enc and p-loop glue of escrypt_kdf_nosse is tied by this correspondence run only).
+-- `Pwhash.escrypt_kdf` calls the core only after its parameter checks passed, so the conversions are lossless.
+def scryptRef (pwd salt : Bytes) (N r p dkLen : Nat) : Bytes :=
+  (ScryptRef.escrypt_kdf_nosse C04.H256 (fun _ => true) pwd salt (UInt64.ofNat N) (UInt32.ofNat r) (UInt32.ofNat p)
+    (UInt64.ofNat dkLen)).out
+-- END scrypt-ref (G3)
+
 def prims : Prims :=
-  { argon2 := fun y pwd salt t m lanes outlen => Argon2.argon2 blake2b y pwd salt [] [] t m lanes outlen
-    scrypt := fun pwd salt N r p dkLen => Scrypt.scrypt hmacSha256 pwd salt N r p dkLen }
+  { argon2 := fun y pwd salt t m lanes outlen => Argon2Ref.argon2_hash_ref_model blake2b y pwd salt t m lanes outlen
+    scrypt := scryptRef }   -- scrypt-ref (G3)
 
 /-- `atoi`-like parse of the alg argument (decimal integers only, optional sign) -/
 def parseInt? (s : String) : Option Int := s.toInt?
@@ -78,7 +92,9 @@ def handle (op : String) (args : List String) : Option String :=
   | "scrypt.ll", [pw, salt, N, r, p, outlen] => do
     let pw ← ofHex pw; let salt ← ofHex salt; let N ← u64? N; let r ← u64? r; let p ← u64? p; let outlen ← u64? outlen
     if outlen > 2 ^ 16 then some badArgs else
-    let res := crypto_pwhash_scrypt_ll prims pw salt N (u32 r) (u32 p) outlen
+    -- scrypt-ref (G3): `_ll` through the model of the C function itself (its own parameter checks, uint64/uint32 arguments)
+    let res := ScryptRef.crypto_pwhash_scryptsalsa208sha256_ll C04.H256 (fun _ => true) pw salt (UInt64.ofNat N)
+      (UInt32.ofNat r) (UInt32.ofNat p) (UInt64.ofNat outlen)
     some (if res.rc ≠ 0 then s!"{res.rc}" else s!"0 {toHex res.out}")
   | "scrypt.str", [pw, ops, mem, salt] => do
     let pw ← ofHex pw; let ops ← u64? ops; let mem ← u64? mem; let salt ← ofHex salt
